@@ -138,6 +138,22 @@ class Builder:
     def b_LsigArg(self, e, env):
         return pt.Arg(e[1])
 
+    # run-time indices (txnas / args / gtxns forms)
+    def b_AppArgRt(self, e, env):
+        return pt.Txn.application_args[self.b(e[1], env)]
+
+    def b_LsigArgRt(self, e, env):
+        return pt.Arg(self.b(e[1], env))
+
+    def b_GtxnRt(self, e, env):
+        return _txn_getter(pt.Gtxn[self.b(e[1], env)], e[2])
+
+    def b_GtxnArgRt(self, e, env):
+        """("GtxnArgRt", group index expr | int, arg index expr | int)"""
+        g = e[1] if isinstance(e[1], int) else self.b(e[1], env)
+        i = e[2] if isinstance(e[2], int) else self.b(e[2], env)
+        return pt.Gtxn[g].application_args[i]
+
     def b_Txn(self, e, env):
         return _txn_getter(pt.Txn, e[1])
 
